@@ -425,8 +425,18 @@ spif_objpair_comp(spif_objpair_t self, spif_obj_t other)
 spif_objpair_t
 spif_objpair_dup(spif_objpair_t self)
 {
+    spif_objpair_t tmp;
+
     ASSERT_RVAL(!SPIF_OBJPAIR_ISNULL(self), (spif_objpair_t) NULL);
-    return spif_objpair_new_from_both(self->key, self->value);
+    /* Either member may be NULL; spif_objpair_new_from_both() refuses those. */
+    tmp = spif_objpair_new();
+    if (!SPIF_OBJ_ISNULL(self->key)) {
+        tmp->key = SPIF_OBJ_DUP(self->key);
+    }
+    if (!SPIF_OBJ_ISNULL(self->value)) {
+        tmp->value = SPIF_OBJ_DUP(self->value);
+    }
+    return tmp;
 }
 
 /**
